@@ -287,6 +287,8 @@ def run(ctx, rep_):
     from props import _identity
     _identity.zip_lengths(F, rep_, "C02.zip-length")
     # the typing guards whose loss makes an accepted program fail with a dynamic type error (shared with C03 (c))
+    from props import _viewread
+    _viewread.run(F, rep_, "C02.view-read")
     from props import _guards
     _guards.run(F, rep_, ctx, prefix="C02", only={"index-supported", "index-type", "index-output", "map-index-key-type", "binary-operator", "unary-minus",
                                                   "unary-not", "annotated-initializer", "reassign-same-type", "method-callable", "field-or-method-exists"})
